@@ -1,6 +1,7 @@
 package locks
 
 import (
+	"os"
 	"testing"
 
 	"verif/mc"
@@ -30,10 +31,16 @@ func TestMC(t *testing.T) {
 		locksetSeq("lockset-3owners-6points", []ownerID{"A", "B", "C"}, points6, map[string]int{"quick": 3, "thorough": 5}),
 		locksetSeq("lockset-3owners-4points", []ownerID{"A", "B", "C"}, points4, map[string]int{"quick": 6, "thorough": 12}),
 		locksetSeq("lockset-ptr-3owners-5points", ptrOwners, points5, map[string]int{"quick": 4, "thorough": 6}),
-		// Full (offset, length) alphabet, LOCKT by both owners and a stranger.
-		poolSeq("pool-2owners-2files", poolRanges, []int{0, 1, 2}, map[string]int{"quick": 3, "thorough": 4}),
+		// Full (offset, length) alphabet, LOCKT by owner A and by a stranger.
+		poolSeq("pool-2owners-2files", poolRanges, []int{0, 2}, map[string]int{"quick": 3, "thorough": 4}),
 		// Fewer ranges, LOCKT only by the stranger: one step deeper.
 		poolSeq("pool-2owners-2files-deep", []rangeSpec{poolRanges[0], poolRanges[1], poolRanges[2], poolRanges[6], poolRanges[9], poolRanges[11]}, []int{2}, map[string]int{"quick": 4, "thorough": 6}),
+	}
+	if os.Getenv("LOCKS_LAST_BYTE") != "" {
+		// Opt-in demonstration of an upstream representation limit (not part
+		// of the check): offset 2^64-1 with length "to EOF" is accepted as
+		// the empty range [max,max), which excludes nobody.
+		seqs = append(seqs, poolSeq("pool-last-byte", []rangeSpec{poolRanges[0], poolRanges[9], lastByteRange}, []int{2}, map[string]int{"quick": 2, "thorough": 2}))
 	}
 	mc.Main(t, nil, seqs)
 }
